@@ -926,6 +926,40 @@ func lastSelector(sel string) string {
 	return sel
 }
 
+// inSeen: the facts establish that key (by provenance) IS in map m: m[key] known true (map to
+// bool), or the ok result of a comma-ok / single-value lookup known true.
+func (fn *Fn) inSeen(fs *FactSet, m *types.Var, key string) bool {
+	isLookup := func(e ast.Expr) bool {
+		ix, ok := ast.Unparen(e).(*ast.IndexExpr)
+		return ok && fn.varOf(ix.X) == m && fn.enclosing(ix).Prov(ix.Index) == key
+	}
+	boolMap := false
+	if mt, ok := m.Type().Underlying().(*types.Map); ok {
+		if b, ok := mt.Elem().Underlying().(*types.Basic); ok && b.Kind() == types.Bool {
+			boolMap = true
+		}
+	}
+	return fs.Cmp(func(e, tag ast.Expr, truth bool, fa *Fact) bool {
+		if tag != nil || !truth {
+			return false
+		}
+		if isLookup(e) {
+			return boolMap
+		}
+		if v := fn.varOf(e); v != nil {
+			defs := fn.defsOf(v)
+			if len(defs) != 1 || !isLookup(defs[0].rhs) {
+				return false
+			}
+			if defs[0].multi {
+				return defs[0].idx == 1
+			}
+			return boolMap
+		}
+		return false
+	})
+}
+
 // dedupLoop checks the loop obligations of a list builder that copies the distinct (by a key
 // function) non-nil elements of parameter #srcParam, in order. It returns the verdict, a
 // description and the key as a selector chain applied to the element (e.g. "ID()",
